@@ -326,3 +326,168 @@ class FlagReach:
 
     def blocks(self, states):
         return {bb for bb, _ in states}
+
+
+class VariantReach:
+    """Reachability that is sensitive to the enum variant a local is known to hold (A13): states are (block, {local:
+    variant path}), e.g. ('Ready', 'Err') for a `Poll::Ready(Err(..))`.  Variants are established by aggregate
+    construction, carried through moves, references, downcast field reads and the Option/Result adaptors of
+    `?`-desugaring (Try::branch, FromResidual, map_err, transpose, ok_or); a switch on the discriminant of a tracked place
+    has one feasible target.  Everything else forgets.  Pruning is sound (only infeasible edges are dropped), so the
+    result is a subset of plain CFG reachability and a superset of the feasible blocks."""
+
+    LIMIT = 400000
+
+    def __init__(self, body):
+        from .flow import Flow
+        self.body = body
+        self.succs = body.succs()
+        self.mutrefs = Flow(body).mutrefs
+
+    def _place_variant(self, env, place):
+        cur = env.get(place["l"])
+        want = None
+        for e in place["p"]:
+            if e == "*":
+                continue
+            if isinstance(e, dict) and "v" in e:
+                want = e.get("n")
+                continue
+            if isinstance(e, dict) and "f" in e:
+                if want is None or not cur or cur[0] != want or e["f"] != 0:
+                    return None
+                cur = cur[1:]
+                want = None
+                continue
+            return None
+        return cur if cur else None
+
+    def _rv_variant(self, env, rv):
+        k = rv["k"]
+        if k == "use":
+            p = rv["op"].get("copy") or rv["op"].get("move")
+            return self._place_variant(env, p) if p is not None else None
+        if k == "ref":
+            return self._place_variant(env, rv["place"])
+        if k == "agg" and rv.get("agg") == "adt" and rv.get("variant") and rv.get("adt_kind", "enum") != "struct":
+            inner = ()
+            if len(rv["ops"]) == 1:
+                p = rv["ops"][0].get("copy") or rv["ops"][0].get("move")
+                inner = (self._place_variant(env, p) or ()) if p is not None else ()
+            return (rv["variant"],) + tuple(inner)
+        return None
+
+    def _call(self, env, t):
+        from .common import callee_names
+        n = set(callee_names(t))
+        dst = t.get("dest")
+        a0 = None
+        if t["args"]:
+            p = t["args"][0].get("copy") or t["args"][0].get("move")
+            a0 = self._place_variant(env, p) if p is not None else None
+        # whatever is reachable through a `&mut` argument may have been replaced
+        for a in t["args"]:
+            p = a.get("copy") or a.get("move")
+            if p is not None:
+                for base in self.mutrefs.get(p["l"], ()):
+                    env.pop(base, None)
+        out = None
+        if "core::ops::try_trait::Try::branch" in n and a0:
+            out = (("Continue",) + a0[1:]) if a0[0] in ("Ok", "Some") else ("Break",)
+        elif "core::ops::try_trait::FromResidual::from_residual" in n and dst is not None:
+            ty = self.body.local_ty(dst["l"])
+            out = ("None",) if ty.startswith("core::option::Option") else (("Err",) if ty.startswith("core::result::Result") else None)
+        elif n & {"core::option::Option::ok_or", "core::option::Option::ok_or_else"} and a0:
+            out = (("Ok",) + a0[1:]) if a0[0] == "Some" else ("Err",)
+        elif n & {"core::result::Result::ok", "core::result::Result::<T, E>::ok"} and a0:
+            out = (("Some",) + a0[1:]) if a0[0] == "Ok" else ("None",)
+        elif "core::result::Result::transpose" in n and a0:
+            if a0[0] == "Err":
+                out = ("Some", "Err")
+            elif len(a0) > 1:
+                out = ("Some", "Ok") + a0[2:] if a0[1] == "Some" else ("None",)
+        elif "core::option::Option::transpose" in n and a0:
+            if a0[0] == "None":
+                out = ("Ok", "None")
+            elif len(a0) > 1:
+                out = ("Ok", "Some") + a0[2:] if a0[1] == "Ok" else ("Err",)
+        elif n & {"core::result::Result::map_err", "core::result::Result::map", "core::option::Option::map"} and a0:
+            out = a0[:1]
+        elif n & {"core::convert::Into::into", "core::convert::From::from"} and a0 and dst is not None \
+                and self.body.local_ty(dst["l"]).split("<")[0] in ("core::result::Result", "core::option::Option"):
+            out = a0
+        if dst is not None:
+            if dst["p"]:
+                env.pop(dst["l"], None)
+            elif out:
+                env[dst["l"]] = tuple(out)
+            else:
+                env.pop(dst["l"], None)
+
+    def step(self, bb, envt):
+        body = self.body
+        env = dict(envt)
+        blk = body.blocks[bb]
+        for s in blk["s"]:
+            if s["k"] == "setdiscr":
+                env.pop(s["place"]["l"], None)
+                continue
+            if s["k"] != "assign":
+                continue
+            dst = s["place"]
+            if dst["p"]:
+                if any(e != "*" for e in dst["p"]):
+                    env.pop(dst["l"], None)
+                continue
+            v = self._rv_variant(env, s["rv"])
+            if v:
+                env[dst["l"]] = v
+            else:
+                env.pop(dst["l"], None)
+        t = blk["t"]
+        nxt = list(self.succs[bb])
+        if t["k"] == "call":
+            self._call(env, t)
+        elif t["k"] == "yield" and t.get("resume_arg") is not None:
+            env.pop(t["resume_arg"]["l"], None)
+        elif t["k"] == "switch":
+            dl = t["discr"].get("copy") or t["discr"].get("move")
+            d = None
+            if dl is not None and not dl["p"]:
+                for s in blk["s"]:
+                    if s["k"] == "assign" and s["place"]["l"] == dl["l"] and s["rv"]["k"] == "discr":
+                        d = s["rv"]
+            if d is not None and d.get("enum"):
+                v = self._place_variant(env, d["place"])
+                by_name = {ent[1]: ent[0] for ent in d["enum"]["variants"]}
+                if v and v[0] in by_name:
+                    val = by_name[v[0]]
+                    hit = [x for vv, x in t["targets"] if vv == val]
+                    nxt = [hit[0] if hit else t["otherwise"]]
+        et = tuple(sorted(env.items()))
+        return [(n, et) for n in nxt]
+
+    def reach(self, start_bb, init=None, avoid=(), avoid_edges=()):
+        avoid = set(avoid)
+        avoid_edges = set(avoid_edges)
+        st0 = (start_bb, tuple(sorted((init or {}).items())))
+        seen = {st0}
+        work = [st0]
+        while work:
+            bb, env = work.pop()
+            for n, ne in self.step(bb, env):
+                if n in avoid or (bb, n) in avoid_edges:
+                    continue
+                s = (n, ne)
+                if s not in seen:
+                    if len(seen) > self.LIMIT:
+                        raise RuntimeError("VariantReach: state limit exceeded in %s" % self.body.name)
+                    seen.add(s)
+                    work.append(s)
+        return seen
+
+    def blocks(self, start_bb, init=None, avoid=(), avoid_edges=()):
+        return {bb for bb, _ in self.reach(start_bb, init, avoid, avoid_edges)}
+
+    def states_at(self, states, bb):
+        return [dict(e) for b, e in states if b == bb]
